@@ -1,8 +1,11 @@
 //! Model-checking harness for scottlamb/http-serve (see /verif/DESIGN.md).
+pub mod alloc;
 pub mod drive;
 pub mod ent;
 pub mod gen;
+pub mod neg_mc;
 pub mod oracle;
 pub mod report;
 pub mod serve_mc;
+pub mod stream_mc;
 pub mod vbuf;
